@@ -5,6 +5,7 @@
 include!(concat!(env!("OUT_DIR"), "/repo_mods.rs"));
 
 mod blackbox;
+mod crumb;
 mod eng;
 mod graph;
 mod json;
@@ -44,6 +45,7 @@ fn main() {
     }
     // A panic inside the subject is caught per call (eng::guard); keep its message short.
     std::panic::set_hook(Box::new(|_| {}));
+    crumb::install();
     let tier = arg(&args, "--tier").unwrap_or_else(|| "quick".into());
     let seed: u64 = arg(&args, "--seed").and_then(|s| s.parse().ok()).unwrap_or(0);
     let out = arg(&args, "--out").unwrap_or_else(|| "/dev/null".into());
